@@ -48,8 +48,13 @@ func genC17(r *Rng, k int, tier string) *RunSpec {
 			return nil
 		}
 		if level == ownedAt {
-			if r.Bool() {
+			switch r.Intn(5) {
+			case 0, 1:
 				return st.Note1
+			case 2:
+				return J{"type": "Mention", "href": st.Alice.ID, "name": "@alice"} // identified by its href
+			case 3:
+				return J{"type": "Link", "href": st.Note1}
 			}
 			return J{"type": "Note", "id": st.Note1}
 		}
@@ -281,9 +286,19 @@ func oracleC17(c *DriveCtx, res *Result) {
 			wantSeen = 1
 		}
 		if faulty {
-			// fault class: a request that still reports success must have done the forwarding it owed
-			if should && len(fwd) == 0 && reached == len(g.tasks) {
-				s.violate("C17", "not-forwarded-under-swallowed-fault", site, fmt.Sprintf("%s meets the three conditions, a seam call was made to fail (%v), every delivery still answered 200, yet nothing was forwarded", actID, res.Spec.Faults))
+			// fault class: the delivery that recorded the activity as seen owes the forwarding if it reports success; a delivery
+			// that reports success although nobody recorded the activity breaks "recorded as seen in every case"
+			var seenBy *Task
+			for _, e := range s.Log {
+				if inTask[e.Task] && e.Kind == "db.Create" && e.ID == actID && !e.Fault && seenBy == nil {
+					seenBy = s.byID[e.Task]
+				}
+			}
+			ok200 := func(t *Task) bool { return t != nil && t.Err == nil && t.Rec != nil && t.Rec.Status == 200 }
+			if first && seenBy == nil {
+				s.violate("C17", "accepted-but-never-recorded", site, fmt.Sprintf("%s was answered 200 (%d of %d deliveries) with a seam call made to fail (%v), yet it was never recorded as seen", actID, reached, len(g.tasks), res.Spec.Faults))
+			} else if should && len(fwd) == 0 && ok200(seenBy) {
+				s.violate("C17", "not-forwarded-under-swallowed-fault", site, fmt.Sprintf("%s meets the three conditions, a seam call was made to fail (%v), the delivery that recorded it (%s) answered 200, yet nothing was forwarded", actID, res.Spec.Faults, seenBy.ID))
 			}
 			if len(fwd) > 1 {
 				s.violate("C17", "forwarded-more-than-once", site, fmt.Sprintf("%s was forwarded %d times", actID, len(fwd)))
